@@ -372,7 +372,7 @@ class Gen(object):
     def statement(self, depth):
         r = self.rng
         kinds = ['assign', 'assign', 'assign', 'attr', 'attr', 'create', 'create_nv', 'delete', 'relate', 'unrelate',
-                 'select_from', 'select_from', 'select_related', 'select_related', 'invoke', 'invoke', 'array',
+                 'select_from', 'select_from', 'select_related', 'select_related', 'invoke', 'invoke', 'array', 'assign_handle',
                  'return', 'stop']
         if self.events:
             kinds += ['generate', 'generate', 'create_event', 'generate_pre']
@@ -394,6 +394,20 @@ class Gen(object):
                 e = self.expr(ty, 3)
             st = om.assign(T(om.var(name), ty), e, prefix=prefix)
             self.declare(name, ty)
+            return st
+        if k == 'assign_handle':
+            # an instance handle, self or an instance set assigned to a (new or existing) variable
+            hs = self.vars_of(lambda t: isinstance(t, tuple) and t[0] in ('inst', 'set'))
+            if self.has_self:
+                hs.append(('self', ('inst', 'A')))
+            if not hs:
+                return None
+            n, t = r.choice(hs)
+            same = [v for v, vt in self.vars_of(lambda x: x == t) if v != n]
+            name = r.choice(same) if same and r.random() < 0.3 else self.fresh('h' if t[0] == 'inst' else 'hs')
+            src = T(om.self_(), t) if n == 'self' else self.handle(n)
+            st = om.assign(T(om.var(name), t), src)
+            self.declare(name, t)
             return st
         if k == 'array':
             ty = r.choice((INT, STR))
